@@ -282,8 +282,14 @@ def g_rows(rng, big):
     return rng.choice([1, 1, 2, 2, 3, 3, 4, 6] + ([10, 25] if big else []))
 
 
-def g_comments(rng, ch, n):
-    return [ch + g_text(rng).replace("\t", " ") for _ in range(n)]
+def g_comments(rng, ch, n, tabs=False):
+    out = []
+    for _ in range(n):
+        t = ch + g_text(rng)
+        if tabs and rng.random() < 0.4:      # e.g. a commented-out record
+            t += "\t" + "\t".join(g_ident(rng) for _ in range(rng.choice([1, 2, 8])))
+        out.append(t)
+    return out
 
 
 def g_delimited(rng, fmt, big):
@@ -299,7 +305,7 @@ def g_delimited(rng, fmt, big):
         for l in lines:
             out.append(l)
             if rng.random() < 0.35:
-                out += g_comments(rng, F["comment"], rng.choice([1, 1, 2]))
+                out += g_comments(rng, F["comment"], rng.choice([1, 1, 2]), tabs=True)
         lines = out
         if rng.random() < 0.3 and lines and not head:      # comment directly before the first record is header
             pass
@@ -393,6 +399,8 @@ def g_fasta(rng, big, twoline):
         name = g_ident(rng) + (" " + g_text(rng, False).replace("\t", " ").strip() if rng.random() < 0.3 else "")
         L = rng.choice([1, 2, 3, W - 1, W, W + 1, 2 * W - 1, 2 * W, 2 * W + 1, 3 * W]) if not twoline else rng.choice([1, 2, 5, 30, 100])
         L = max(1, min(L, 200))
+        if rng.random() < 0.08:
+            L = 0                            # a record without sequence lines
         s = "".join(rng.choice("ACGTNacgtn") for _ in range(L))
         lines.append(">" + name.rstrip())
         lines += [s[i:i + W] for i in range(0, L, W)] if not twoline else [s]
@@ -404,7 +412,7 @@ def g_fastq(rng, big):
     lines = []
     for _ in range(n):
         name = g_ident(rng) + (" " + g_ident(rng) if rng.random() < 0.3 else "")
-        s = g_seq(rng, "ACGTN")
+        s = g_seq(rng, "ACGTN", allow_empty=rng.random() < 0.3)
         q = "".join(chr(rng.randrange(33, 127)) for _ in s)
         lines += ["@" + name, s, "+" + (name if rng.random() < 0.3 else ""), q]
     return lines
@@ -866,6 +874,14 @@ def finding_key(c, got, exp):
         if "." in vals and any(v != "." for v in vals):
             return "optional-int:dot-mixed-with-values"
     if fmt == "vcf" and re.search(r"=\.[;\t,]|,\.[;\t,]", t):
-        return "vcf-info:dot-value"
+        return "optional-int:dot-mixed-with-values"
+    if F.get("interior") and any(l.startswith(F["comment"]) and "\t" in l for l in t.split("\n")):
+        return "interior-comment-buffer:tab-in-comment"
+    if "\r" in t and fmt in ("gff", "wig"):
+        return "interior-comment-buffer:crlf"
+    if "\r" in t and fmt == "sam":
+        return "sam:crlf"
+    if fmt == "fasta" and re.search(r"(^|\n)>[^\n]*\r?\n(>|$)", t):
+        return "fasta-read:record-without-sequence-line"
     kind = "raises" if isinstance(got, dict) and "err" in got else "wrong-value"
     return f"{fmt}{':' + c['flavour'] if c.get('flavour') else ''}:{kind}"
